@@ -40,6 +40,8 @@ THEOREMS = [
     "AiuVerif.C01.default_keeps_all",
     "AiuVerif.C01.sort_is_pass",
     "AiuVerif.C01.barrier_is_pass",
+    "AiuVerif.C01.overlap_tid_conserves",
+    "AiuVerif.C01.overlap_drop_conserves",
 ]
 RULE = ("random rich scenarios (gen/rich.py: 1..4 ranks, chain all-reduce groups, kernels, host slices as X and B/E, ties, "
         "nesting, staggered partial overlaps up to the 5-extra-lane budget, zero/negative durations, 1/16 us device slices, "
